@@ -360,6 +360,17 @@ Proof.
     destruct (is_local_init ro sid), (is_server ro); cbn; try discriminate; auto.
 Qed.
 
+(* 8.4 / 5.1.1: a PUSH_PROMISE is legal from a server to a client that has not disabled push, on a request of the
+   client, and promises a fresh even identifier above all earlier ones *)
+Definition conn_fine (st : conn) (l : label) : bool :=
+  match l with
+  | LRecvPushPromise sid p _ _ =>
+    negb (is_server (c_role st)) && c_push_local st && is_server_init p &&
+    match c_recv_next st with Some n => n <=? p | None => false end &&
+    is_local_init (c_role st) sid
+  | _ => true
+  end.
+
 Definition tolerable (v : verdict) : bool := match v with accept | tolerate => true | _ => false end.
 
 Ltac kill_state2 r Hv Hm Hwf :=
